@@ -308,6 +308,10 @@ def _eval_sum(val: list[RealValue], ctx: Context):
             accum = ops.add(accum, x, ctx=ctx)
         return accum
 
+def _is_neg_zero(x: RealValue) -> bool:
+    """Is *x* the value ``-0.0``?  A ``Fraction`` zero (a literal) is ``+0``."""
+    return isinstance(x, Float) and x.s and x.is_zero()
+
 def _unchecked_min(vals: list[RealValue]):
     # propagate any NaN input
     for x in vals:
@@ -319,9 +323,7 @@ def _unchecked_min(vals: list[RealValue]):
     for x in vals[1:]:
         if x < result:
             result = x
-        elif (x == result
-            and isinstance(x, Float) and isinstance(result, Float)
-            and x.s and not result.s):
+        elif x == result and _is_neg_zero(x) and not _is_neg_zero(result):
             result = x  # x is -0, result is +0 → prefer -0 for min
     return result
 
@@ -341,9 +343,7 @@ def _unchecked_max(vals: list[RealValue]):
     for x in vals[1:]:
         if x > result:
             result = x
-        elif (x == result
-            and isinstance(x, Float) and isinstance(result, Float)
-            and not x.s and result.s):
+        elif x == result and _is_neg_zero(result) and not _is_neg_zero(x):
             result = x  # x is +0, result is -0 → prefer +0 for max
     return result
 
